@@ -154,6 +154,11 @@ func (plainList__Assembler) BeginMap(sizeHint int64) (datamodel.MapAssembler, er
 	return mixins.ListAssembler{TypeName: "list"}.BeginMap(0)
 }
 func (na *plainList__Assembler) BeginList(sizeHint int64) (datamodel.ListAssembler, error) {
+	// Sanity check assembler state: beginning again would drop what was assembled so far
+	//  (and, on a finished assembler, empty the node that has already been handed out).
+	if na.state != laState_initial {
+		panic("misuse")
+	}
 	if sizeHint < 0 {
 		sizeHint = 0
 	}
